@@ -1014,15 +1014,60 @@ theorem instantiate_instanceWorld (table : List Entry) (vals : List (Key × Int)
     InstanceWorld table (instantiate table vals) :=
   ⟨⟨[], by simp [instantiate], by simp⟩, by simpa [instantiate] using installAll_ids table 0, rfl, rfl, rfl⟩
 
+/-- `dict.fromkeys`: duplicate free, same members -/
+theorem dedupInto_spec : ∀ (l seen : List Name), seen.Nodup →
+    (dedupInto seen l).Nodup ∧ ∀ n, n ∈ dedupInto seen l ↔ n ∈ seen ∨ n ∈ l := by
+  intro l
+  induction l with
+  | nil => intro seen h; simp [dedupInto, h]
+  | cons a rest ih =>
+    intro seen hs
+    simp only [dedupInto]
+    by_cases ha : a ∈ seen
+    · rw [if_pos ha]
+      obtain ⟨h1, h2⟩ := ih seen hs
+      refine ⟨h1, fun n => ?_⟩
+      rw [h2 n]
+      constructor
+      · rintro (h | h)
+        · exact Or.inl h
+        · exact Or.inr (List.mem_cons_of_mem _ h)
+      · rintro (h | h)
+        · exact Or.inl h
+        · rcases List.mem_cons.1 h with rfl | h
+          · exact Or.inl ha
+          · exact Or.inr h
+    · rw [if_neg ha]
+      have hs' : (seen ++ [a]).Nodup := by
+        rw [List.nodup_append]
+        refine ⟨hs, by simp, ?_⟩
+        intro x hx y hy e
+        simp at hy
+        subst hy; subst e
+        exact ha hx
+      obtain ⟨h1, h2⟩ := ih (seen ++ [a]) hs'
+      refine ⟨h1, fun n => ?_⟩
+      rw [h2 n]
+      simp only [List.mem_append, List.mem_cons, List.not_mem_nil, or_false]
+      constructor
+      · rintro ((h | h) | h)
+        · exact Or.inl h
+        · exact Or.inr (Or.inl h)
+        · exact Or.inr (Or.inr h)
+      · rintro (h | h | h)
+        · exact Or.inl (Or.inl h)
+        · exact Or.inl (Or.inr h)
+        · exact Or.inr h
+
 theorem fnWatch_instanceWorld (table : List Entry) (w : IWorld) (label : Name) (names : List Name)
-    (hW : InstanceWorld table w) (hl : label ∉ table.map (·.name)) (hn : names.Nodup) :
+    (hW : InstanceWorld table w) (hl : label ∉ table.map (·.name)) :
     InstanceWorld table (fnWatch w label names) := by
   obtain ⟨extra, h1, h2⟩ := hW.regs
-  refine ⟨⟨extra ++ [⟨w.regs.length, label, names, "value", false, 0⟩], by simp [fnWatch, h1], ?_⟩, ?_, hW.batch, hW.events, hW.queued⟩
+  refine ⟨⟨extra ++ [⟨w.regs.length, label, dedupInto [] names, "value", false, 0⟩], by simp [fnWatch, h1], ?_⟩, ?_, hW.batch, hW.events, hW.queued⟩
   · intro x hx
     rcases List.mem_append.1 hx with h3 | h3
     · exact h2 x h3
-    · simp at h3; subst h3; exact ⟨hl, hn⟩
+    · simp at h3; subst h3; exact ⟨hl, (dedupInto_spec names [] (by simp)).1⟩
   · simp only [fnWatch, List.map_append, hW.ids, List.map_cons, List.map_nil, List.length_append, List.length_cons,
       List.length_nil]
     simp [List.range'_concat]
@@ -1086,5 +1131,16 @@ theorem single_watcher_calls (w w' : IWorld) (x : IWatcher) (op : Op)
       exact ⟨_, hk, rfl, hn⟩
   rw [List.filter_cons, hiff]
   split <;> simp
+
+theorem expectedCalls_congr {a b : List Key} (ch : List Key) (hab : ∀ k, k ∈ a ↔ k ∈ b) :
+    expectedCalls a ch = expectedCalls b ch := by
+  unfold expectedCalls
+  have : a.any (fun d => ch.contains d) = b.any (fun d => ch.contains d) := by
+    rw [Bool.eq_iff_iff, List.any_eq_true, List.any_eq_true]
+    constructor
+    · rintro ⟨k, hk, h⟩; exact ⟨k, (hab k).1 hk, h⟩
+    · rintro ⟨k, hk, h⟩; exact ⟨k, (hab k).2 hk, h⟩
+  rw [this]
+
 
 end ParamVerif.Depends
